@@ -359,6 +359,15 @@ def r66s(F):
         if b in pre and not pl["p"] and pl["l"] in cps and pl["l"] != 0 and rv["k"] == "use" and rv["ops"][0].get("int") == "0" and rv["ops"][0].get("ty") == "bool":
             if any(cfg.reaches(fn, b, rb, removed={h}) for rb in rets):
                 falses.append(b)
+    # the "found a partner" flag of the element loop is per element
+    for name in ("ucglib::ast::is_list_subset_cached", "ucglib::ast::is_tuple_subset_cached"):
+        f2 = F.fn(name)
+        stale = util.stale_flags(f2)
+        short = name.split("::")[-1].replace("_cached", "")
+        r.inst("%s:flag-reset-per-element" % short, f2.where(stale[0][4]) if stale else f2.where(), not stale,
+               "the flag the inner loop sets is cleared at the start of every outer iteration" if not stale else
+               "the flag `%s` that the inner loop sets is not reset for the next element: once one element has found a partner every "
+               "later element counts as matched (`[0, true]` admits `[1, \"a\"]`)" % "/".join(stale[0][1]))
     r.inst("is_list_subset:false-only-from-elements", fn.where(falses[0]) if falses else fn.where(h), not falses,
            "every `false` comes out of the element loop" if not falses else
            "is_list_subset_cached returns false before looking at the elements (a length comparison?): conforming lists of a different "
